@@ -216,8 +216,16 @@ let run (toks : string list) : string =
             ignore (step (Hap.OClose (conn c))); Hashtbl.replace dead c true
           end
         | ["G"; c; ids] ->
-          if not (alive c) then emit "G=noconn" else begin
-            let l = L.map cid_of (split_on ',' ids) in
+          let num x = (try int_of_string x with _ -> 0) in       (* strconv.Atoi: not a number = 0 *)
+          let toks = split_on ',' ids in
+          let wellformed = L.for_all (fun t -> L.length (split_on '.' t) = 2) toks in
+          if not (alive c) then emit "G=noconn"
+          else if not wellformed then
+            (* an entry that is not <aid>.<iid>: the request is refused as a whole *)
+            emit ("G=" ^ (match req c (Hap.ECharsGet ([], false)) with
+                | Hap.RHttp500 -> "500:-" | Hap.RRefused470 -> "470" | Hap.RChars (st, es) -> Printf.sprintf "%d:%s" (int_of_n st) (entries_str es) | r -> resp_tlv r))
+          else begin
+            let l = L.map (fun t -> match split_on '.' t with [a; i] -> (n_of_int (num a), n_of_int (num i)) | _ -> (N0, N0)) toks in
             emit ("G=" ^ (match req c (Hap.ECharsGet (l, true)) with
                 | Hap.RChars (st, es) -> Printf.sprintf "%d:%s" (int_of_n st) (entries_str es)
                 | Hap.RRefused470 -> "470" | r -> resp_tlv r))
